@@ -1497,7 +1497,10 @@ func (p *partition) sendAck(ack *client.Ack) {
 	ack.CommitTimestamp = timestamp()
 	data, err := proto.MarshalAck(ack)
 	if err != nil {
-		panic(err)
+		// The ack carries the NATS subject the message was received on, which
+		// need not be valid UTF-8.
+		p.srv.logger.Errorf("Error marshaling ack for partition %s: %v", p, err)
+		return
 	}
 	if err := p.srv.ncAcks.Publish(ack.AckInbox, data); err != nil {
 		p.srv.logger.Errorf("Error sending ack for partition %s: %v", p, err)
@@ -1526,7 +1529,8 @@ func (p *partition) sendTooLargeNack(msg *commitlog.Message) {
 	}
 	data, err := proto.MarshalAck(ack)
 	if err != nil {
-		panic(err)
+		p.srv.logger.Errorf("Error marshaling ack for partition %s: %v", p, err)
+		return
 	}
 	if err := p.srv.ncAcks.Publish(ack.AckInbox, data); err != nil {
 		p.srv.logger.Errorf("Error sending ack for partition %s: %v", p, err)
